@@ -641,6 +641,16 @@ def replay(path):
         lo = library_outcome(argv, stdin, universe, cfg)
         why = check_category(rec.get("category", "any"), r, lo[2])
         print("property statement:", why or "conforms")
+        known = None
+        if why:
+            k = fail_key({"argv": argv, "cat": rec.get("category", "any")}, r, why, lo)
+            for e in common.known_findings("C20"):
+                if k == e["key"] or k.startswith(e["key"] + ":"):
+                    known = e
+        if known:
+            # the recorded failure is gone; what remains on this tree is a listed known finding
+            print("KNOWN-FINDING: property=C20 %s [%s]" % (known["what"], known["key"]))
+            return 0
         dis = []
         if not unrec:
             m = parse_model(common.driver([model_line(lo, argv)])[0])
